@@ -13,12 +13,14 @@ mod rangeoracle;
 mod node;
 mod oracles;
 mod rng;
+mod search;
 
 use driver::{Scenario, Tier};
 
 fn registry() -> Vec<Box<dyn Scenario>> {
     let mut v: Vec<Box<dyn Scenario>> = vec![];
     v.extend(cluster::scenarios());
+    v.extend(search::scenarios());
     v
 }
 
